@@ -375,3 +375,85 @@ pub fn tree_case(line: &str) -> String {
   }
   out.join(" ")
 }
+
+/// A writer that runs out after `cap` bytes.
+pub struct FailingWriter {
+  pub cap: usize,
+  pub short: bool,
+  pub written: Vec<u8>,
+}
+impl std::io::Write for FailingWriter {
+  fn write(&mut self, buf: &[u8]) -> std::io::Result<usize> {
+    if buf.is_empty() {
+      return Ok(0);
+    }
+    let room = self.cap - self.written.len();
+    if self.short {
+      if room == 0 {
+        return Err(std::io::Error::new(std::io::ErrorKind::Other, "full"));
+      }
+      let n = room.min(buf.len());
+      self.written.extend_from_slice(&buf[..n]);
+      Ok(n)
+    } else {
+      if buf.len() > room {
+        return Err(std::io::Error::new(std::io::ErrorKind::Other, "full"));
+      }
+      self.written.extend_from_slice(buf);
+      Ok(buf.len())
+    }
+  }
+  fn flush(&mut self) -> std::io::Result<()> {
+    Ok(())
+  }
+}
+
+pub fn writer_case(t: &mut Toks) -> String {
+  let mut ctx = Ctx::default();
+  let s = build(t, &mut ctx).boxed();
+  let cap = t.num() as usize;
+  let short = t.num() == 1;
+  let mut w = FailingWriter { cap, short, written: Vec::new() };
+  let r = s.to_writer(&mut w);
+  format!("buf={} written={} ok={}", hex(&s.buffer()), hex(&w.written), r.is_ok() as u8)
+}
+
+/// `comp`: a composite (ConcatSource of boxed items, or ReplaceSource) and its children standalone.
+pub fn comp_case(line: &str) -> String {
+  let mut t = Toks::new(line);
+  t.next();
+  t.next();
+  let start = t.pos;
+  let mut ctx = Ctx::default();
+  let comp = build(&mut t, &mut ctx).boxed();
+  // children, each built standalone from its own tokens
+  let mut t2 = Toks::new(line);
+  t2.pos = start;
+  let mut kids: Vec<BoxSource> = Vec::new();
+  match t2.next() {
+    "concat" | "concata" => {
+      let n = t2.num();
+      for _ in 0..n {
+        assert_eq!(t2.next(), "b");
+        let mut c = Ctx::default();
+        kids.push(build(&mut t2, &mut c).boxed());
+      }
+    }
+    "repl" => {
+      let mut c = Ctx::default();
+      kids.push(build(&mut t2, &mut c).boxed());
+    }
+    k => panic!("comp over {}", k),
+  }
+  let mut out = vec![format!("src={}", hex(comp.source().as_bytes()))];
+  out.push(format!("e10={}", record_stream(&comp, true, false).0));
+  out.push(format!("e00={}", record_stream(&comp, false, false).0));
+  out.push(format!("nk={}", kids.len()));
+  for (i, k) in kids.iter().enumerate() {
+    out.push(format!("k{}.e10={}", i, record_stream(k, true, false).0));
+  }
+  for (i, k) in kids.iter().enumerate() {
+    out.push(format!("k{}.e00={}", i, record_stream(k, false, false).0));
+  }
+  out.join(" ")
+}
